@@ -429,6 +429,16 @@ def r3_grid(ctx: Context) -> None:
         elif isinstance(s_, ast.Assign) and isinstance(v, ast.Call) and (dotted(v.func) or "") in ("math.prod", "prod") and v.args and isinstance(v.args[0], (ast.GeneratorExp, ast.ListComp)):
             g0 = v.args[0]
             ok_size = len(g0.generators) == 1 and src(g0.generators[0].iter) in ("self._param_grid", "self.param_grid") and src(g0.elt) == f"len({src(g0.generators[0].target)})"
+        elif isinstance(s_, ast.Assign) and isinstance(v, ast.Call) and (dotted(v.func) or "") in ("reduce", "functools.reduce") and len(v.args) == 3 \
+                and src(v.args[0]) in ("operator.mul", "mul", "int.__mul__") and isinstance(v.args[2], ast.Constant) and v.args[2].value == 1:
+            # reduce(operator.mul, (len(c) for c in grid), 1): the same exact product of Python integers
+            seq = v.args[1]
+            while isinstance(seq, ast.Call) and (dotted(seq.func) or "") in ("tuple", "list") and len(seq.args) == 1:
+                seq = seq.args[0]
+            ok_size = isinstance(seq, (ast.GeneratorExp, ast.ListComp)) and len(seq.generators) == 1 and not seq.generators[0].ifs \
+                and src(seq.generators[0].iter) in ("self._param_grid", "self.param_grid") and src(seq.elt) in (f"len({src(seq.generators[0].target)})", f"{src(seq.generators[0].target)}.shape[0]")
+            if not ok_size and not isinstance(seq, (ast.GeneratorExp, ast.ListComp)):
+                raise AnalysisError(f"{init.loc(s_)}: the space size is a reduction over `{src(seq)[:50]}`, which the rule cannot read")
         elif isinstance(s_, ast.Assign) and col is not None and lp is loop:
             ok_size = init_one and str(n.rat(v)) == str(n.rat(parse_expr(f"self._space_size * len({col})")))
     already = any(f_.key.endswith("fixed-width-product") for f_ in ctx.findings)
